@@ -29,9 +29,10 @@ def queries(tier, seed):
     for (hdr, bpp, comp, ncol, w, h) in variants:
         hh = abs(h)
         # loop bounds: 1/4-bit rows are expanded bit by bit over the padded row; RLE runs up to 255; a 300-entry palette is filled entry by entry
-        UNW[0] = 140 if bpp == 1 else (70 if bpp == 4 else (40 if comp == 3 else 16))   # bitfield masks: count_ones/trailing_zeros loops run 32 times
+        UNW[0] = 40 if bpp == 1 else (70 if bpp == 4 else (40 if comp == 3 else 16))   # bitfield masks: count_ones/trailing_zeros loops run 32 times
         # an 8-bit palette is padded to 256 entries (std::vector fill): only those loops get the large bound
-        USET[0] = [(r'St6vector|fill_n|uninitialized', 310)] if (bpp == 8 or ncol == 300) else []
+        USET[0] = [(r'St6vector|fill_n|uninitialized|read_palette', 310)] if (bpp == 8 or ncol == 300) else []
+        if bpp == 1: USET[0] = [(r'read_palette_image', 2100)]   # 1-bit rows go through a 256-entry bit-mirroring table built by a 256 x 8 loop
         pal = (ncol if ncol < 16 else 0) * (3 if hdr == 12 else 4) if bpp <= 8 else 0
         base = 14 + hdr + (12 if comp == 3 else 0)
         full = base + pal + hh * bmp_rowbytes(w, bpp if bpp != 15 else 16)
@@ -39,7 +40,7 @@ def queries(tier, seed):
         hval = h if h >= 0 else (1 << 32) + h
         par = [1, hdr, bpp, comp, w, hval & 0x7FFFFFFF if h >= 0 else hval - (1 << 32), ncol, -1] + ([7, base + pal] if comp in (1, 2) else [0, 0])
         pixt = {24: 'gil::rgb8_pixel_t', 32: 'gil::rgba8_pixel_t'}.get(bpp)
-        common = hdr == 40 and (w, h) == (3, 2) and ncol < 16 and comp in (0, 3) and bpp not in (2, 1)   # RLE (comp 1, 2): thorough attempts only (no verdict in 300 s)
+        common = hdr == 40 and (w, h) == (3, 2) and ncol < 16 and comp in (0, 3) and bpp != 2   # RLE (comp 1, 2): thorough attempts only (no verdict in 300 s)
         lens_q = [full, full - 1, base + pal, 0] if common else [full]
         lens_t = sorted(set([0, 1, 2, 10, 14, 18, 26, 30, base - 1, base, base + pal - 1, base + pal, base + pal + 1, full - 1, full, full + 2] + list(range(base + pal, full))))
         for L in [x for x in lens_t if x >= 0]:
